@@ -52,7 +52,8 @@ def shards(tier: str, seed: int) -> list[dict[str, Any]]:
 def required_reach(tier: str) -> dict[str, int]:
     return {"contention.during-pending": 5, "contention.during-retry": 3, "tp.inside-window-attempt": 5, "cancel.while-holding": 5,
             "cancel.while-waiting": 5, "late-reply-surfaced-as-error": 3, "histories": 500, "overlapping-histories": 200,
-            "reconnect.contended": 3, "results.owned": 1000, "transport-mode.calls": 200}
+            "reconnect.contended": 3, "results.owned": 1000, "transport-mode.calls": 200, "cancel.during-db-insert": 20, "cancel.reconnector": 20,
+            "db-logging.histories": 200}
 
 
 class Wire:
@@ -170,7 +171,12 @@ def build_case(rng: random.Random) -> dict[str, Any]:
         callers.append({"did": 0x1000 + i * 0x111 + rng.randrange(0x100), "kind": kind, "k": rng.randint(1, 4), "start": rng.choice([0.0, 0.0, 0.01, 0.2, 0.9, 1.1, rng.random() * 3]),
                         "calls": rng.choice([1, 1, 2])})
     case = {"callers": callers, "timeout": rng.choice([0.5, 1.0]), "max_retry": rng.choice([0, 0, 1, 2]), "tp": rng.choice([None, 0.3, 1.0, 2.0]),
-            "reconnect_at": rng.choice([None, None, 0.05, 0.6, 1.5]), "yield_seed": rng.randrange(1 << 30), "mode": "client"}
+            "reconnect_at": rng.choice([None, None, 0.05, 0.6, 1.5]), "yield_seed": rng.randrange(1 << 30), "mode": "client",
+            # reconnect(timeout=t): t bounds the reconnect itself; a reconnect queued behind a long exchange must not disturb it
+            "reconnect_timeout": rng.choice([None, None, 0.1, 0.4, 2]),
+            # a database handler whose insert is a suspension point (as the real queue put / a full queue is): logging happens after the
+            # exchange, outside the client mutex
+            "db": rng.random() < 0.4}
     if rng.random() < 0.25:
         # the transport's own request() (write+read under the transport mutex), used by scanners that bypass the UDS client
         case.update({"mode": "transport", "tp": None, "max_retry": 0})
@@ -207,9 +213,20 @@ async def run_history(case: dict[str, Any], cancel_at: int | None, cancel_idx: i
     hist: list[tuple[Any, ...]] = []
     wire = Wire(plans_for(case), random.Random(case["yield_seed"]), hist)
     ecu = ECU(wire.transport, timeout=case["timeout"], max_retry=case["max_retry"])
+    if case.get("db"):
+
+        class _DB:
+            async def insert_scan_result(self, *a: Any, **k: Any) -> None:
+                await wire.event("db-insert", None)
+                await asyncio.sleep(0)  # always a suspension point (the real handler awaits its queue)
+
+        ecu.db_handler = _DB()  # type: ignore[assignment]
+        ctx_reach_db = True
+    else:
+        ctx_reach_db = False
     loop = asyncio.get_running_loop()
     results: dict[str, list[Any]] = {}
-    ctx_reach: list[str] = []
+    ctx_reach: list[str] = ["db-logging.histories"] if ctx_reach_db else []
 
     class _R:
         def __init__(self, pdu: bytes):
@@ -243,8 +260,11 @@ async def run_history(case: dict[str, Any], cancel_at: int | None, cancel_idx: i
             if case.get("mode") == "transport":
                 await wire.transport.reconnect()
             else:
-                await ecu.reconnect()
+                await ecu.reconnect(case.get("reconnect_timeout"))
             hist.append(("return", "reconnector", ("ok", None), loop.time()))
+        except asyncio.CancelledError:
+            hist.append(("return", "reconnector", ("cancelled", None), loop.time()))
+            raise
         except Exception as e:
             hist.append(("return", "reconnector", ("exc", type(e).__name__), loop.time()))
 
@@ -333,6 +353,11 @@ def check_history(ctx: Any, case: dict[str, Any], out: dict[str, Any], cancel: t
                 pending_seen_in_window = True
             if owner == "tp-worker" and kind == "write" and any(tk != "tp-worker" for tk in open_call):
                 pass
+        elif kind == "db-insert":
+            # the final reply (or error) has been handed to the ECU layer: the exchange is over, logging runs outside the client mutex
+            if window_owner == task:
+                window_owner = None
+            ctx.reach("db-insert.events")
         elif kind == "return":
             if window_owner == task:
                 window_owner = None
@@ -368,13 +393,18 @@ def check_history(ctx: Any, case: dict[str, Any], out: dict[str, Any], cancel: t
         ctx.violation("progress/too-slow", "callers needed more virtual time than the per-request bounds allow", {**w, "end": out["end"], "bound": bound})
     if cancel is not None:
         # where was the cancelled task?
-        tgt = f"caller{cancel[1]}"
+        tgt = f"caller{cancel[1]}" if cancel[1] < len(case["callers"]) else "reconnector"
         held = False
         cur: str | None = None
         n = 0
         for kind, task, payload, t in hist:
-            if kind in ("write", "read", "close", "connect"):
+            if kind in ("write", "read", "close", "connect", "db-insert"):
                 n += 1
+                if kind == "db-insert":
+                    if n == cancel[0] and task == tgt:
+                        ctx.reach("cancel.during-db-insert")
+                    if cur == task:
+                        cur = None
                 if kind in ("write", "close", "connect") and cur is None:
                     cur = task
                 if n == cancel[0]:
@@ -385,6 +415,8 @@ def check_history(ctx: Any, case: dict[str, Any], out: dict[str, Any], cancel: t
         was_cancelled = any(h[0] == "return" and h[1] == tgt and h[2][0] == "cancelled" for h in hist)
         if was_cancelled:
             ctx.reach("cancel.while-holding" if held else "cancel.while-waiting")
+            if tgt == "reconnector":
+                ctx.reach("cancel.reconnector")
 
 
 def one(ctx: Any, case: dict[str, Any], cancel: tuple[int, int] | None) -> dict[str, Any] | None:
@@ -409,12 +441,12 @@ def run(ctx: Any, params: dict[str, Any]) -> None:
             continue
         if i % 50 == 0:
             ctx.sample({"case": case, "events": len(out["hist"])})
-        nev = sum(1 for h in out["hist"] if h[0] in ("write", "read", "close", "connect"))
+        nev = sum(1 for h in out["hist"] if h[0] in ("write", "read", "close", "connect", "db-insert"))
         ks = list(range(1, nev + 1))
         if params["cancel"] == "sample":
             ks = rng.sample(ks, min(len(ks), 4))
         for k in ks:
-            tgt = rng.randrange(len(case["callers"]))
+            tgt = rng.randrange(len(case["callers"]) + (1 if case["reconnect_at"] is not None and rng.random() < 0.5 else 0))
             one(ctx, case, (k, tgt))
         if ctx.out_of_time():
             break
